@@ -23,6 +23,7 @@ ASSUMPTIONS = ['ledger reference model (simfw/econref.py) encodes which flows ea
 WHICH = ('conservation', 'ledger')
 list_paths = econprops.list_paths
 simplifiers = econprops.simplifiers
+valid = econprops.valid_program
 
 
 def generate(seed, tier):
